@@ -32,6 +32,7 @@ structure C04St where
   snaps : List (Nat × List Nat) := []      -- per set-call: the instances running when it was invoked
   ops : List (Nat × Op) := []
   tainted : Bool := false                  -- only used by `monC04x`
+  pend : List Nat := []                    -- only used by `monC04x`: clearing calls in flight
 deriving Repr
 
 def lookupSnap (l : List (Nat × List Nat)) (a : Nat) : List Nat :=
@@ -67,16 +68,22 @@ def monC04a : ObsMonitor Obs C04St where
 
 /-- **C04 outside the open finding D16**: as `monC04`, but once a call that asks for the nil routine (or the
 empty state) has returned a non-nil wait channel — the container has forgotten the exit channel of an instance
-that may still be executing — nothing more is demanded. -/
+that may still be executing — nothing more is demanded. While such a call is in flight (its critical section may
+already have happened, its result is not yet known) the two checks are suspended. -/
 def monC04x : ObsMonitor Obs C04St where
   init := {}
   step := fun ms o =>
     if ms.tainted then some ms else
     match o with
+    | .inv a op =>
+      (monC04.step ms (.inv a op)).map fun ms' => if op.clears then { ms' with pend := a :: ms'.pend } else ms'
     | .ret a r =>
-      (match lookupOp ms.ops a with
-       | some op => if op.clears && r.hasCh then some { ms with tainted := true } else some ms
-       | none => some ms)
+      if ms.pend.contains a then
+        (if r.hasCh then some { ms with tainted := true } else some { ms with pend := ms.pend.filter (· != a) })
+      else some ms
+    | .cbin k f arg root =>
+      if ms.pend.isEmpty then monC04.step ms (.cbin k f arg root) else some { ms with running := ms.running ++ [k] }
+    | .probeW a b => if ms.pend.isEmpty then monC04.step ms (.probeW a b) else some ms
     | o => monC04.step ms o
 
 /-! ## C05 -/
@@ -249,6 +256,7 @@ def monC14 : ObsMonitor Obs C14St where
       let ms := { ms with running := if quiet then ms.running else ms.running.map (fun p => (p.1, true)),
                           snaps := (a, ms.running.map (·.1)) :: ms.snaps,
                           pendMut := if quiet then ms.pendMut else a :: ms.pendMut,
+
                           lastExit := if quiet then ms.lastExit else none,
                           expectReset := if quiet then ms.expectReset else 0 }
       (match op with
@@ -277,7 +285,9 @@ def monC14 : ObsMonitor Obs C14St where
            | .swapR _ _ ch _ _ => ch
            | .state _ => false
            | _ => true
-         some { ms with doomed := if sup then snap ++ ms.doomed else ms.doomed })
+         -- superseded for sure: executing when the call was invoked and still executing now that it has returned
+         let still := snap.filter fun k => ms.running.any (·.1 == k)
+         some { ms with doomed := if sup then still ++ ms.doomed else ms.doomed })
     | .exitcb j e =>
       if j = 0 then
         if ms.cbNext != 0 then none
@@ -294,6 +304,63 @@ def monC14 : ObsMonitor Obs C14St where
       else none
     | .quiesce _ _ =>
       if ms.retryDue || ms.expectReset != 0 || ms.cbNext != 0 then none else some ms
+    | _ => some ms
+
+/-! ## C14h — a healthy instance is left alone, and moved to a new context when asked -/
+
+structure C14hSt where
+  running : List (Nat × Bool) := []        -- (entry, touched)
+  pendMut : List Nat := []                 -- mutating API calls in flight
+  croots : List Nat := []
+  roots : List (Nat × Nat) := []           -- entry ↦ root context of the instance
+  seenLive : List Nat := []                -- instances whose context was seen live after entry
+  moved : List (Nat × Nat) := []           -- SetContext(c ≠ nil, restart=false) in flight ↦ the healthy instance executing at the call
+  expectRun : Bool := false                -- such a call returned true while that instance was still executing
+deriving Repr
+
+def Op.quiet : Op → Bool
+  | .getState | .waitExited _ => true
+  | _ => false
+
+/-- **C14 (run again … by nothing else), the healthy-instance clauses**: an instance that entered with a live
+context is not cancelled unless a mutating API call was in flight when it entered or has been invoked since, or
+its root context was cancelled by the environment (a retry timer that lost the race for the lock, a stale error
+or a stale pointer must not stop it); and when SetContext(ctx ≠ nil, restart = false) returns true while such an
+instance — which has not failed — is still executing, the routine runs again under the new context once that
+instance has returned (checked at quiescence points with nothing executing). -/
+def monC14h : ObsMonitor Obs C14hSt where
+  init := {}
+  step := fun ms o =>
+    match o with
+    | .cbin k _ _ root =>
+      some { ms with running := ms.running ++ [(k, !ms.pendMut.isEmpty)], roots := (k, root) :: ms.roots,
+                     expectRun := false }
+    | .cbout k _ => some { ms with running := ms.running.filter (·.1 != k) }
+    | .probeCtx k false => some { ms with seenLive := k :: ms.seenLive }
+    | .probeCtx k true =>
+      let healthy := ms.running.any (fun p => p.1 == k && !p.2) && ms.seenLive.contains k &&
+        (match ms.roots.find? (·.1 == k) with
+         | some p => !ms.croots.contains p.2
+         | none => false)
+      if healthy then none
+      else some { ms with running := ms.running.map fun p => if p.1 == k then (p.1, true) else p }
+    | .envCancel c => some { ms with croots := c :: ms.croots, expectRun := false }
+    | .inv a op =>
+      if op.quiet then some ms else
+      some { ms with running := ms.running.map (fun p => (p.1, true)), pendMut := a :: ms.pendMut,
+                     expectRun := false,
+                     moved := (match op, ms.running with
+                               | .setContext c false, [(k, false)] =>
+                                 if c != 0 && !ms.croots.contains c && ms.seenLive.contains k && ms.pendMut.isEmpty
+                                 then (a, k) :: ms.moved else ms.moved
+                               | _, _ => ms.moved) }
+    | .ret a r =>
+      let ms := { ms with pendMut := ms.pendMut.filter (· != a) }
+      let exp := match r, ms.moved.find? (·.1 == a) with
+        | .bool true, some p => ms.running.any (·.1 == p.2) && ms.pendMut.isEmpty
+        | _, _ => false
+      some { ms with expectRun := ms.expectRun || exp }
+    | .quiesce _ run => if ms.expectRun && run.isEmpty then none else some ms
     | _ => some ms
 
 end UtilModel.Routine
